@@ -28,6 +28,17 @@ func (g *ExprGen) opTower(depth int) Expr {
 		case 2:
 			return call("count", &EPath{Abs: true, Steps: []*Stp{{Axis: "descendant-or-self", Test: NodeTest{Kind: "node"}, Abbrev: true}, g.Step(0, 0)}})
 		case 3:
+			if r.Chance(1, 3) {
+				// a path continued after a filter expression, with / and with //
+				f := &EFilter{E: &EPath{Abs: true, Steps: g.Steps(0, 1, 0)}, Steps: g.Steps(0, 1+r.Intn(2), 0)}
+				if r.Bool() {
+					f.Steps = append([]*Stp{{Axis: "descendant-or-self", Test: NodeTest{Kind: "node"}, Abbrev: true}}, f.Steps...)
+				}
+				if r.Bool() {
+					f.Preds = []Expr{g.Pred(0)}
+				}
+				return f
+			}
 			return &EPath{Abs: r.Bool(), Steps: g.Steps(0, 1+r.Intn(2), 2)}
 		case 4:
 			return call(pick(r, []string{"true", "false"}))
@@ -50,7 +61,7 @@ func (g *ExprGen) opTower(depth int) Expr {
 	}
 }
 
-var tokenCases = []string{"/*/a * 3", "/*/a*3", "/* * 2", "/*/* * /*/*", "/*/a * 3 = 15", "/*//a + 1", "(/*/a) * 3", "/*/a div 2", "/*/a mod 2", "/*/a - 1", "a-b", "a -b", "a - b", "a- b", "* * *", "a*b", "a * b", "child::child", "child::child/child::*", "4 div 2", "4div 2", "//*", "/*", "/ *", "/", "/ | /", "*", ". * .", "..", "../..", ".//.",
+var tokenCases = []string{"(/r)//child", "(/*)//child", "(/r)[1]//child", "(/r)/child", "(/r)//a", "(/r)/descendant-or-self::node()/child", "(//a)[2]//child", "(/r)//child/..", "(/r)//@id", "/*/a * 3", "/*/a*3", "/* * 2", "/*/* * /*/*", "/*/a * 3 = 15", "/*//a + 1", "(/*/a) * 3", "/*/a div 2", "/*/a mod 2", "/*/a - 1", "a-b", "a -b", "a - b", "a- b", "* * *", "a*b", "a * b", "child::child", "child::child/child::*", "4 div 2", "4div 2", "//*", "/*", "/ *", "/", "/ | /", "*", ". * .", "..", "../..", ".//.",
 	"a.b", "a.b.c", "a-1", "a - 1", "a -1", "n1", "-1", "--1", "- -1", "1 - -1", "text", "text()", "comment", "node", "self", "self::self", "ancestor", "@child", "@*", "attribute::*", "processing-instruction('t')", "processing-instruction()",
 	"p:a", "p:*", "*:a", "child::p:a", "$n", "$n+1", "$x-y", "$n -1", "$n - 1", "1+2*3", "1*2+3", "(1+2)*3", "8 div 4 div 2", "7 mod 4 mod 2", "1 - 2 - 3", "1 < 2 < 3", "1 = 1 = 1", "1 != 2 = 3", "3 > 2 > 1", "1 or 0 and 0", "not(1) or 1",
 	"1 | 2", "//a | //b | //c", "(//a)[1]", "(//a)[last()]/..", "//a[1][1]", "//a[position() = last()]", "count(//a)", "count( //a )", "count(//a,//b)", "concat('a','b','c')", "string()", "string(  )", "f()", "p:f(1)", "last ( )",
